@@ -72,6 +72,7 @@ type Case struct {
 	Plan        []uint16  `json:"plan"`                  // consumed cyclically: 0 nothing, 1 Gosched, n >= 10 sleep n microseconds
 	StallMs     int       `json:"stall_ms,omitempty"`    // sleep this long inside a rotation (after the old log is marked rotating)
 	StallEvery  int       `json:"stall_every,omitempty"` // ... at every n-th rotation (at most 3 times per case)
+	Faults      []Fault   `json:"faults,omitempty"`      // resource-limit windows during the client phase (see fault_test.go)
 }
 
 // Doc is the replay document.
@@ -96,6 +97,7 @@ type Stats struct {
 	Converted       int            `json:"writes_converted_to_reads_after_error"`
 	MaintErrors     int            `json:"maint_errors"`
 	Overlaps        int            `json:"overlapping_same_key_pairs"`
+	FaultWindows    int            `json:"fault_windows"`
 }
 
 const idStride = 1000
@@ -242,6 +244,9 @@ func genCase(t *rapid.T) Case {
 	if rapid.IntRange(0, 3).Draw(t, "stall") == 0 {
 		c.StallMs = rapid.IntRange(25, 40).Draw(t, "stall_ms")
 		c.StallEvery = rapid.IntRange(1, 6).Draw(t, "stall_every")
+	}
+	if ev.Flag("resource_faults") && rapid.IntRange(0, 3).Draw(t, "faults") == 0 {
+		c.Faults = genFaults(t, &c)
 	}
 	return c
 }
@@ -460,9 +465,11 @@ func runCase(c *Case) ([]Rec, *Stats, *Verdict) {
 			}()
 		}
 		hooksOn.Store(true)
+		stopFaults := startFaults(c, round, start, st)
 		close(start)
 		wg.Wait()
 		done.Store(true)
+		stopFaults() // every limit is lifted before anything else opens or grows a file
 		mwg.Wait()
 		for _, h := range hist {
 			all = append(all, h...)
@@ -547,6 +554,9 @@ func classify(c *Case, st *Stats) (bool, []string) {
 	cl = append(cl, fmt.Sprintf("sync_mode:%d", c.Cfg.SyncMode))
 	if len(st.WriteErrors) > 0 {
 		cl = append(cl, "has_write_errors")
+	}
+	for _, f := range c.Faults {
+		cl = append(cl, "fault:"+f.Kind)
 	}
 	return nt, cl
 }
